@@ -182,8 +182,6 @@ class PathEffects(object):
                 op = e.a['op']
                 if op == '&':
                     inner = strip(e.c[0])
-                    if inner.k == 'Index':
-                        return pval(inner.c[0])
                     return {(p, s + '@') for (p, s) in lloc(inner)}
                 if op == '*':
                     return {(p, s + '[]') for (p, s) in pval(e.c[0])}
